@@ -237,7 +237,7 @@ func c44Tamper(m *mon.M, ks *keyset) {
 					}
 					return true, nil, "accepted"
 				}
-				defer runTamper(m, dt, r, capPerMsg/2, wit, func(l string) bool { return l == "signed-data" })
+				defer runTamper(m, dt, r, capPerMsg/2, wit, ks.witKeys(), func(l string) bool { return l == "signed-data" })
 			}
 		}
 		// the unmodified message must be accepted, otherwise nothing below means anything
@@ -263,12 +263,12 @@ func c44Tamper(m *mon.M, ks *keyset) {
 			m.Sample(map[string]any{"stream": "tamper", "kind": kind, "message_len": len(tt.msg), "regions": cnt})
 		}
 		signed, enc := tt.signed, tt.encrypted
-		runTamper(m, tt, r, capPerMsg, wit, func(l string) bool { return insideLabel(l, signed, enc) })
+		runTamper(m, tt, r, capPerMsg, wit, ks.witKeys(), func(l string) bool { return insideLabel(l, signed, enc) })
 	})
 }
 
 // runTamper mutates single octets of tt.msg and judges the reader's verdicts.
-func runTamper(m *mon.M, tt *tamperTarget, r *rand.Rand, limit int, base map[string]any, inside func(string) bool) {
+func runTamper(m *mon.M, tt *tamperTarget, r *rand.Rand, limit int, base map[string]any, keysHex string, inside func(string) bool) {
 	n := len(tt.msg)
 	var offs []int
 	if n <= limit {
@@ -351,6 +351,7 @@ func runTamper(m *mon.M, tt *tamperTarget, r *rand.Rand, limit int, base map[str
 					for k, v := range base {
 						wit[k] = v
 					}
+					wit["secret_keyring"] = keysHex
 					key := "tampered-message-accepted:" + tt.kind + ":" + label
 					if !in {
 						key = "tampered-message-accepted-with-different-plaintext:" + tt.kind + ":" + label
